@@ -225,4 +225,40 @@ theorem delete_mid (h h' : Heap) (rc : Nat) (hi : Inv key h) (hr : delete key h 
       exact finish _ (by rw [siftDown_size, hsz]) s1.1 s1.2 ((orderedFrom_zero key _ _).mp s2)
         (siftDown_perm key true _ _ _ _) (siftDown_frame key true _ _ _ _ _ hN (Nat.le_refl _)) hr.symm
 
+/-- `delete rc` (with `rc < nelems`) succeeds, keeps the invariant, and removes exactly the element
+    in slot `rc` — the one whose last reported position is `rc`. -/
+theorem delete_spec (h : Heap) (rc : Nat) (hi : Inv key h) (hrc : rc < h.a.size) :
+    ∃ h' x, delete key h rc = some h' ∧ Inv key h' ∧ h.a[rc]? = some x ∧ posOf h x = some rc ∧
+      h.a.toList.Perm (x :: h'.a.toList) ∧ h'.a.size = h.a.size - 1 := by
+  have hsome : ∃ h', delete key h rc = some h' := by
+    unfold delete; simp only [hrc, dite_true]; exact ⟨_, rfl⟩
+  obtain ⟨h', hr⟩ := hsome
+  obtain ⟨hm, heq, hms, _, hD, hP, hO, x, hx, hperm⟩ := delete_mid key h h' rc hi hr
+  refine ⟨h', x, hr, ?_, hx, hi.handles rc x hx, ?_, ?_⟩
+  · have hget : ∀ k, h'.a[k]? = if k < h.a.size - 1 then hm.a[k]? else none := by
+      intro k; subst heq; simp only [Array.getElem?_pop, hms]
+    have hpos : ∀ e, posOf h' e = posOf hm e := by
+      intro e; subst heq; rfl
+    constructor
+    · intro i j y hy hz
+      rw [hget] at hy hz
+      split at hy <;> split at hz <;> try (first | cases hy | cases hz)
+      rename_i h1 h2
+      exact hD i j y h1 h2 hy hz
+    · intro i y hy
+      rw [hget] at hy; rw [hpos]
+      split at hy <;> try cases hy
+      rename_i h1
+      exact hP i y h1 hy
+    · intro i c q h0 hc hq
+      rw [hget] at hc hq
+      split at hc <;> split at hq <;> try (first | cases hc | cases hq)
+      rename_i h1 h2
+      exact hO i c q h0 h1 hc hq
+  · subst heq; exact hperm
+  · subst heq; simp [hms]
+
+theorem delete_none (h : Heap) (rc : Nat) (hrc : ¬ rc < h.a.size) : delete key h rc = none := by
+  unfold delete; simp [hrc]
+
 end Percival.Proofs.Heap
